@@ -129,6 +129,14 @@ Proof.
     destruct Hin as [p [E Hin]]. subst pe. apply in_seq in Hin. cbn. lia.
 Qed.
 
+Lemma emit_n_sim : forall c l k act h n st x,
+  R st x -> k <= length (x_procs x) ->
+  R (emit_n c st l (children (seq 0 k) (build act h)) n) (emit_to_n x (seq 0 k) act h l n).
+Proof.
+  induction n as [|n IH]; intros st x H K; cbn [emit_n emit_to_n]; [assumption|].
+  apply IH; [apply emit_sim; assumption | exact K].
+Qed.
+
 Lemma R_slots_upd : forall st x sl xs,
   R st x -> sl = map slot_of xs -> Forall (pids_ok (length (x_procs x))) xs ->
   R (with_slots st sl) (with_xslots x xs).
@@ -334,6 +342,31 @@ Proof.
     intros. cbn [xstep]. rewrite N. destruct (logger_enabled c l).
     + apply (finish_plain x [plain [TB ln] "log_fields_as_supplied:logger_name"]). repeat constructor.
     + apply (finish_plain x [plain [TB (map n2b kNoopLoggerName)] "disabled_emits_nothing:logger_name"]). repeat constructor.
+  - (* LBurst *)
+    destruct (negb _); [discriminate|]. inversion E; subst st'; clear E.
+    set (act := active_ident c st t).
+    destruct (logger_enabled c l) eqn:EN.
+    + unfold create_multi, enum_from. fold (children (seq 0 (length (s_procs st))) (rec_created act)).
+      rewrite map_children_children. fold (apply_args args (rec_created act)). fold (build act args).
+      assert (RE : R (emit_n c st l (children (seq 0 (length (s_procs st))) (build act args)) n)
+                     (emit_to_n x (all_pids x) act args l n)).
+      { unfold all_pids. rewrite (R_procs _ _ H). apply emit_n_sim; [assumption | lia]. }
+      set (st1 := emit_n c st l (children (seq 0 (length (s_procs st))) (build act args)) n) in *.
+      assert (SO : s_out st1 = s_out st).
+      { unfold st1. generalize (children (seq 0 (length (s_procs st))) (build act args)). intro ch.
+        clear. revert st. induction n as [|n IH]; intro st; cbn [emit_n]; [reflexivity|]. rewrite IH. reflexivity. }
+      exists ((print_active act ++ (if flush then counts st1 else [])) ++ [bar]), (emit_to_n x (all_pids x) act args l n).
+      split; [cbn [with_out s_out]; rewrite SO; reflexivity|]. split; [|apply R_with_out; assumption].
+      intros rest known. cbn [xstep]. rewrite <- !app_assoc, eat_active_print, EN. destruct flush.
+      * rewrite <- (count_chunk_toks st1 _ "each_processor_once:burst_exported_count" RE).
+        rewrite app_assoc. apply finish_plain. apply count_chunk_plain.
+      * apply finish_nil.
+    + exists ((print_active act ++ (if flush then counts st else [])) ++ [bar]), x.
+      split; [reflexivity|]. split; [|apply R_with_out; assumption].
+      intros rest known. cbn [xstep]. rewrite <- !app_assoc, eat_active_print, EN. destruct flush.
+      * rewrite <- (count_chunk_toks st _ "disabled_emits_nothing:exported_count" H).
+        rewrite app_assoc. apply finish_plain. apply count_chunk_plain.
+      * apply finish_nil.
 Qed.
 
 (* ------------------------------------------------------------------ every operation sequence *)
